@@ -247,6 +247,11 @@ func famReceiver(t *lc) {
 }
 
 func receiverValue(x *lc, h int) (evals, bad int) {
+	if h == 0 {
+		for _, nc := range numberClasses(x.o.obj) {
+			x.c.Cover("number", nc)
+		}
+	}
 	for _, d := range availDecoders(x.o) {
 		x.c.Cover("decoder", d.name)
 		ref, ok := x.o.ref(d)
